@@ -2,9 +2,9 @@ Require Extraction.
 Require Import ExtrOcamlBasic.
 From GoPdf.Base Require Import WireAnchor.
 From GoPdf.Gen Require Import Gen_Limits Gen_C08dct.
-From GoPdf.C08 Require Import Stream Simple LZW Predict Params Chain Classify Run Charge CCITT.
+From GoPdf.C08 Require Import Stream Simple LZW Predict Params Chain Classify Run Charge CCITT DCTFrames.
 Separate Extraction wire_anchor ahx_dec a85_dec rl_dec lzw_dec unpredict run_chain decode_stream
   parse_flate parse_lzw parse_ccitt ccitt_geometry predict_params pp_validate dict_of_list
   get_filters read_all construct content_read as_malformed StreamBudget MaxXRefEntries
   plane_charge plane_alloc prog_site predict_site ccitt_site pool_run lzw_table_bytes run_sites
-  main_table_ok run_table_ok ccitt_read row_len run_scans jbig2_workLimit.
+  main_table_ok run_table_ok ccitt_read row_len run_scans jbig2_workLimit decode_frame.
